@@ -26,3 +26,39 @@ PROPS["C05"] = dict(
              thorough=dict(sim=dict(num=4000, depth=200), explore=dict(n=2000), dfs=dict(max=5000, pb=3))),
     ],
 )
+
+def semunit(name, cfg, actors, init, victims, quick, thorough, tier=None):
+    u = dict(name=name, scenario="sem",
+             tlc=[("spec/l2/MCSemaphore.tla", cfg)], sim_spec=("spec/l2/MCSemaphore.tla", cfg),
+             params=dict(actors=actors, init=init, victims=victims, workers=8),
+             quick=quick, thorough=thorough)
+    if tier:
+        u["tier"] = tier
+    return u
+
+PROPS["C10"] = dict(
+    assumptions=["Park/ThreadPark satisfy the AbsBlocker contract (C02); timers fire at their deadline (C08)",
+                 "the SegQueue of waiters is a linearizable FIFO (crossbeam, trusted)"],
+    units=[
+        semunit("timed3", "spec/l2/MCSemaphore_timed3.cfg",
+                [co("a1", ["twait"], dur=1), co("a2", ["twait", "try"], dur=2), co("a3", ["post"])], 0, [],
+                dict(sim=dict(num=300, depth=200), explore=dict(n=200), dfs=dict(max=300, pb=2)),
+                dict(sim=dict(num=4000, depth=200), explore=dict(n=2000), dfs=dict(max=4000, pb=3))),
+        semunit("cancel3", "spec/l2/MCSemaphore_cancel.cfg",
+                [co("a1", ["wait"]), co("a2", ["wait", "post"]), th("a3", ["post", "try"])], 0, ["a1"],
+                dict(sim=dict(num=300, depth=200), explore=dict(n=200), dfs=dict(max=300, pb=2)),
+                dict(sim=dict(num=4000, depth=200), explore=dict(n=2000), dfs=dict(max=4000, pb=3))),
+        semunit("mix3", "spec/l2/MCSemaphore_mix.cfg",
+                [th("a1", ["wait", "post"]), co("a2", ["wait", "post"]), th("a3", ["try", "wait", "post"])], 1, [],
+                dict(sim=dict(num=300, depth=200), explore=dict(n=200), dfs=dict(max=300, pb=2)),
+                dict(sim=dict(num=4000, depth=200), explore=dict(n=2000), dfs=dict(max=4000, pb=3))),
+        semunit("timed4", "spec/l2/MCSemaphore.cfg",
+                [co("a1", ["twait"], dur=1), co("a2", ["twait"], dur=2), co("a3", ["post"]), th("a4", ["post", "try"])], 0, [],
+                dict(), dict(sim=dict(num=4000, depth=250), explore=dict(n=2000), dfs=dict(max=3000, pb=2), tlc_timeout=900), tier="thorough"),
+        dict(name="flag3", scenario="flag",
+             tlc=[("spec/l2/MCSyncFlag.tla", "spec/l2/MCSyncFlag.cfg")], sim_spec=("spec/l2/MCSyncFlag.tla", "spec/l2/MCSyncFlag.cfg"),
+             params=dict(actors=[co("a1", ["twait", "wait"], dur=1), co("a2", ["wait"], dur=2), th("a3", ["fire", "wait"], dur=3)], victims=["a2"], workers=8),
+             quick=dict(sim=dict(num=300, depth=250), explore=dict(n=200), dfs=dict(max=300, pb=2)),
+             thorough=dict(sim=dict(num=4000, depth=250), explore=dict(n=2000), dfs=dict(max=4000, pb=3))),
+    ],
+)
